@@ -75,6 +75,8 @@ def generate(ck):
     # only THEN: the second transient is as real as the first
     descs.append({"cls": "single", "table": {"kind": "synthetic", "family": "ideal", "prm": [0.5, 0.5, 0.5], "n": 200, "p_lo": 100.0, "p_hi": 9100.0, "grid": "uniform", "seed": 0}, "nx": 40, "p_i": 8000.0, "p_f": 2000.0, "r": 8, "t_end": 100.0, "levels": [4000.0, 2000.0]})
     descs.append({"cls": "single", "table": {"kind": "synthetic", "family": "zlin", "prm": [0.4, 0.4, 0.5], "n": 200, "p_lo": 100.0, "p_hi": 9100.0, "grid": "uniform", "seed": 0}, "nx": 25, "p_i": 7000.0, "p_f": 3000.0, "r": 8, "t_end": 240.0, "levels": [5000.0, 3000.0, 6000.0]})
+    descs.append(dict(descs[1], t0=1.0))
+    descs.append(dict(descs[2], t0=1e-3))
     descs.append(dict(descs[0], decoy=True, ratio=0.5))
     descs.append(dict(descs[2], decoy=True, p_f=3000.0))
     for i in range(n):
@@ -105,6 +107,8 @@ def generate(ck):
             lv = rng.uniform(p_f, p_f + 0.9 * (p_i - p_f), k)
             lv[int(rng.integers(0, k))] = p_f
             d["levels"] = [float(v) for v in lv]
+        if i % 6 == 1:
+            d["t0"] = float(rng.choice([1e-3, 1.0, 37.5, 1e4]))
         if d["levels"] and i % 7 == 4:
             d["t_end"] = float(rng.uniform(60, 150)) * len(d["levels"])  # every level held until fully relaxed
         descs.append(d)
@@ -201,6 +205,8 @@ def _one(ck, desc, nx):
     seg_T = [t_end / nseg] * nseg
     seg_n = [r * nx] * nseg  # every change of frac-face pressure starts a new, fully resolved transient
     t, starts = _segments_grid(seg_T, seg_n)
+    if desc.get("t0"):
+        t = t + float(desc["t0"])  # the record does not start at time zero: recovery still starts at zero
     if desc["cls"] == "ideal":
         p_i = 5000.0
         p_f = desc["ratio"] * p_i
